@@ -57,8 +57,9 @@ class QArr:
 
     def at(self, i):
         """value at a z3 / SymInt / int index, no bounds obligation (used by contracts and axioms)"""
-        v = self.f(_idx(i))
-        return v
+        iz = _idx(i)
+        ctx().register_row_term(iz)
+        return self.f(iz)
 
     def _in_range(self, iz):
         c = ctx()
@@ -70,11 +71,15 @@ class QArr:
             raise EngineError("boolean-mask selection from a symbolic-length array is not modelled")
         if isinstance(k, slice):
             return self._slice(k)
+        if isinstance(k, tuple) and len(k) == 2 and isinstance(k[0], slice) and k[0] == slice(None) and k[1] is None:
+            f = self.f
+            return Q2(self.n, None, lambda i, j: f(i), self.kind)          # x[:, np.newaxis]: a column that broadcasts along the second axis
         if isinstance(k, (int, SymInt)):
             iz = _idx(k)
             if isinstance(k, int) and not isinstance(k, SymInt) and k < 0:
                 iz = self.n + k
             self._in_range(iz)
+            ctx().register_row_term(iz)
             return self.f(iz)
         raise EngineError(f"index {type(k).__name__} on a symbolic-length array")
 
@@ -88,10 +93,10 @@ class QArr:
             lo, hi = lo_hi()
             n2 = z3.If(hi - lo > 0, hi - lo, 0)
             f = self.f
-            return QArr(z3.simplify(n2), lambda i: f(i + lo), self.kind)
+            return QArr(z3.simplify(n2), lambda i: f(z3.simplify(i + lo)), self.kind)
         if s.step == -1 and s.start is None and s.stop is None:
             f, n = self.f, self.n
-            return QArr(n, lambda i: f(n - 1 - i), self.kind)
+            return QArr(n, lambda i: f(z3.simplify(n - 1 - i)), self.kind)
         raise EngineError("slice with this step on a symbolic-length array")
 
     def __setitem__(self, k, v):
@@ -191,7 +196,8 @@ class QArr:
         m = z3.Real(c.fresh_name(name))
         w = z3.Int(c.fresh_name(name + "_at"))
         f = self.f
-        c.add_axiom(self._forall(lambda i: rel(m, lift_real(f(i)))))
+        c.add_row_axiom(lambda i: rel(m, lift_real(f(i))), z3.IntVal(0), self.n)
+        c.register_row_term(w)
         c.add_axiom(z3.And(w >= 0, w < self.n, lift_real(f(w)) == m))
         return SymReal(m)
 
@@ -200,8 +206,7 @@ class QArr:
         cs = z3.Function(c.fresh_name("cumsum"), z3.IntSort(), z3.RealSort())
         f = self.f
         c.add_axiom(z3.Implies(self.n > 0, cs(0) == lift_real(f(z3.IntVal(0)))))
-        i = z3.Int(c.fresh_name("q"))
-        c.add_axiom(z3.ForAll([i], z3.Implies(z3.And(i >= 1, i < self.n), cs(i) == cs(i - 1) + lift_real(f(i))), patterns=[cs(i)]))
+        c.add_row_axiom(lambda i: cs(i) == cs(i - 1) + lift_real(f(i)), z3.IntVal(1), self.n, patterns=[lambda i: cs(i)])
         return QArr(self.n, lambda j: SymReal(cs(j)), "real")
 
     def any(self):
@@ -209,7 +214,8 @@ class QArr:
         b = z3.Bool(c.fresh_name("any"))
         w = z3.Int(c.fresh_name("any_at"))
         f = self.f
-        c.add_axiom(self._forall(lambda i: z3.Implies(to_z3_bool(f(i)), b)))
+        c.add_row_axiom(lambda i: z3.Implies(to_z3_bool(f(i)), b), z3.IntVal(0), self.n)
+        c.register_row_term(w)
         c.add_axiom(z3.Implies(b, z3.And(w >= 0, w < self.n, to_z3_bool(f(w)))))
         return SymBool(b)
 
@@ -218,9 +224,79 @@ class QArr:
         b = z3.Bool(c.fresh_name("all"))
         w = z3.Int(c.fresh_name("all_at"))
         f = self.f
-        c.add_axiom(z3.Implies(b, self._forall(lambda i: to_z3_bool(f(i)))))
+        c.add_row_axiom(lambda i: z3.Implies(b, to_z3_bool(f(i))), z3.IntVal(0), self.n)
+        c.register_row_term(w)
         c.add_axiom(z3.Implies(z3.Not(b), z3.And(w >= 0, w < self.n, z3.Not(to_z3_bool(f(w))))))
         return SymBool(b)
+
+
+class Q2:
+    """rows (symbolic count) x columns (CONCRETE count m, or None while still a broadcastable column): f(i, j) -> value.
+    Models the (intervals x streams) activity matrix: comparison / arithmetic against a (1, m) array of per-stream values, & and |,
+    and ``matrix @ vector`` as a finite sum per row."""
+    __array_ufunc__ = None
+    ndim = 2
+
+    def __init__(self, n, m, f, kind="real"):
+        self.n, self.m, self.f, self.kind = _idx(n), m, f, kind
+
+    def _other(self, o):
+        """-> (m, g(i, j)) for a scalar, a (1, m) / (m,) array of per-column values, or another Q2"""
+        if isinstance(o, Q2):
+            return o.m, o.f
+        if hasattr(o, "shape") and getattr(o, "ndim", 0) >= 1:
+            import numpy as _np
+            a = _np.asarray(o, dtype=object)
+            if a.ndim == 2 and a.shape[0] == 1:
+                a = a[0]
+            if a.ndim != 1:
+                raise EngineError("only (1, m) or (m,) operands combine with a symbolic-rows matrix")
+            vals = list(a)
+            return len(vals), (lambda i, j: vals[j])
+        return None, (lambda i, j: o)
+
+    def _bin(self, o, op, kind="real", rev=False):
+        m2, g = self._other(o)
+        if self.m is not None and m2 is not None and self.m != m2:
+            raise ValueError(f"operands could not be broadcast together: {self.m} vs {m2} columns")
+        f = self.f
+        return Q2(self.n, self.m if self.m is not None else m2, (lambda i, j: op(g(i, j), f(i, j))) if rev else (lambda i, j: op(f(i, j), g(i, j))), kind)
+
+    def __add__(self, o): return self._bin(o, lambda a, b: a + b)
+    def __radd__(self, o): return self._bin(o, lambda a, b: a + b, rev=True)
+    def __sub__(self, o): return self._bin(o, lambda a, b: a - b)
+    def __rsub__(self, o): return self._bin(o, lambda a, b: a - b, rev=True)
+    def __mul__(self, o): return self._bin(o, _mul)
+    def __rmul__(self, o): return self._bin(o, _mul, rev=True)
+    def __lt__(self, o): return self._bin(o, lambda a, b: _sb(a < b), "bool")
+    def __le__(self, o): return self._bin(o, lambda a, b: _sb(a <= b), "bool")
+    def __gt__(self, o): return self._bin(o, lambda a, b: _sb(a > b), "bool")
+    def __ge__(self, o): return self._bin(o, lambda a, b: _sb(a >= b), "bool")
+    def __and__(self, o): return self._bin(o, lambda a, b: _sb(a) & _sb(b), "bool")
+    def __rand__(self, o): return self._bin(o, lambda a, b: _sb(a) & _sb(b), "bool", rev=True)
+    def __or__(self, o): return self._bin(o, lambda a, b: _sb(a) | _sb(b), "bool")
+    def __invert__(self): return Q2(self.n, self.m, (lambda f: lambda i, j: ~_sb(f(i, j)))(self.f), "bool")
+
+    @property
+    def shape(self):
+        return (SymInt(self.n), self.m)
+
+    def __matmul__(self, v):
+        import numpy as _np
+        vals = list(_np.asarray(v, dtype=object).ravel())
+        if self.m is None or len(vals) != self.m:
+            raise ValueError(f"matmul: {self.m} columns against a vector of {len(vals)}")
+        f = self.f
+
+        def row(i):
+            tot = 0.0
+            for j, c in enumerate(vals):
+                tot = tot + _mul(f(i, j), c)
+            return tot
+        return QArr(self.n, row, "real")
+
+    def at(self, i, j):
+        return self.f(_idx(i), j)
 
 
 def _sb(v):
@@ -259,14 +335,13 @@ class QIndices:
             raise IndexError("index 0 is out of bounds for axis 0 with size 0")
         idx = z3.Int(c.fresh_name("first" if k == 0 else "last"))
         f = m.f
+        c.register_row_term(idx)
         if k == 0:
             c.add_axiom(z3.And(idx >= 0, idx < m.n, to_z3_bool(f(idx))))
-            i = z3.Int(c.fresh_name("q"))
-            c.add_axiom(z3.ForAll([i], z3.Implies(z3.And(i >= 0, i < idx), z3.Not(to_z3_bool(f(i))))))
+            c.add_row_axiom(lambda i: z3.Not(to_z3_bool(f(i))), z3.IntVal(0), idx)
         elif k == -1:
             c.add_axiom(z3.And(idx >= 0, idx < m.n, to_z3_bool(f(idx))))
-            i = z3.Int(c.fresh_name("q"))
-            c.add_axiom(z3.ForAll([i], z3.Implies(z3.And(i > idx, i < m.n), z3.Not(to_z3_bool(f(i))))))
+            c.add_row_axiom(lambda i: z3.Not(to_z3_bool(f(i))), idx + 1, m.n)
         else:
             raise EngineError("flatnonzero(...)[k] only for k in (0, -1) on symbolic-length masks")
         return SymInt(idx)
